@@ -234,11 +234,10 @@ theorem step_content (c : Ctx) (k : Nat) (h : WF c) (hk : k ≤ c.position) :
   · show d.position - k = c.position - k
     rw [p4]
 
-theorem step_Q (hloc : ParseLocal) {c1 c2 : Ctx} (h : Q c1 c2) (k : Nat) (h1 : k ≤ c1.position) (h2 : k ≤ c2.position)
-    (hm : c1.buf.take k = c2.buf.take k) (hlf : (c1.buf.take k).getLast? = some 10)
-    (hcl : ∀ b ∈ c1.buf.take k, b ≠ 34 ∧ b ≠ 39 ∧ b ≠ 13) : Q (step c1 k) (step c2 k) := by
+theorem step_Q {M : Bytes → Prop} (hloc : ParseLocalOn M) {c1 c2 : Ctx} (h : Q c1 c2) (k : Nat) (h1 : k ≤ c1.position)
+    (h2 : k ≤ c2.position) (hm : c1.buf.take k = c2.buf.take k) (hM : M (c1.buf.take k)) : Q (step c1 k) (step c2 k) := by
   obtain ⟨hp, w1, w2, hev⟩ := h
-  obtain ⟨a1, a2⟩ := hloc c1 c2 k hp w1.1 w2.1 (by have := w1.2.1; omega) w1.2.2 hm hlf hcl
+  obtain ⟨a1, a2⟩ := hloc c1 c2 k hp w1.1 w2.1 (by have := w1.2.1; omega) w1.2.2 hm hM
   obtain ⟨es, e1, e2⟩ := a2
   refine ⟨?_, (step_content c1 k w1 h1).1, (step_content c2 k w2 h2).1, ?_⟩
   · unfold step
@@ -289,17 +288,19 @@ theorem inputLoop_pos : ∀ (fuel : Nat) (c : Ctx) (tot : Nat) (r : Bool), WF c 
 
 /-! ## two runs on the same pending bytes, and on pending bytes of which one is a prefix of the other -/
 
-/-- what the proof needs to know about the streams it is applied to -/
-structure Good (G : Bytes → Prop) : Prop where
+/-- what the proof needs to know about the streams it is applied to: `G` holds of the whole stream,
+`G1` of the part that has arrived when a call returns, `M` of the messages the scan cuts out -/
+structure Good (M G G1 : Bytes → Prop) : Prop where
   drop : ∀ s k, G s → G (s.drop k)
-  clean : ∀ s, G s → ∀ b ∈ s, b ≠ 34 ∧ b ≠ 39 ∧ b ≠ 13
-  term : ∀ s k, G s → scan s = some k → (s.take k).getLast? = some 10
-  stable : StableOn G
+  drop1 : ∀ s k, G1 s → G1 (s.drop k)
+  app1 : ∀ p x, x ≠ [] → G1 x → G1 (p ++ x)
+  msg : ∀ s k, G s → scan s = some k → M (s.take k)
+  stable : ∀ s y k, G (s ++ y) → G1 s → scan s = some k → scan (s ++ y) = some k
 
 theorem wf_pos_le {c : Ctx} (h : WF c) : c.position ≤ c.buf.length := by
   obtain ⟨a, b, _⟩ := h; omega
 
-theorem loop_same (hloc : ParseLocal) {G : Bytes → Prop} (hG : Good G) : ∀ (n : Nat) (c1 c2 : Ctx) (f1 f2 : Nat) (r1 r2 : Bool),
+theorem loop_same {M G G1 : Bytes → Prop} (hloc : ParseLocalOn M) (hG : Good M G G1) : ∀ (n : Nat) (c1 c2 : Ctx) (f1 f2 : Nat) (r1 r2 : Bool),
     Q c1 c2 → content c1 = content c2 → G (content c1) → (content c1).length ≤ n →
     (content c1).length < f1 → (content c1).length < f2 →
     Q (inputLoop f1 c1 0 r1).1 (inputLoop f2 c2 0 r2).1 ∧
@@ -340,16 +341,15 @@ theorem loop_same (hloc : ParseLocal) {G : Bytes → Prop} (hG : Good G) : ∀ (
         have hm1 := content_take c1 k2 hk1
         have hm2 := content_take c2 k2 hk2
         have hQ := step_Q hloc hq k2 hk1 hk2 (by rw [← hm1, ← hm2, hc])
-          (by rw [← hm1]; exact hG.term _ _ hg hsc)
-          (by rw [← hm1]; intro b hb; exact hG.clean _ hg b (List.mem_of_mem_take hb))
+          (by rw [← hm1]; exact hG.msg _ _ hg hsc)
         obtain ⟨_, s1, _, _⟩ := step_content c1 k2 hq.wf1 hk1
         obtain ⟨_, s2, _, _⟩ := step_content c2 k2 hq.wf2 hk2
         have hlen : (content (step c1 k2)).length = (content c1).length - k2 := by rw [s1, List.length_drop]
         exact ih ((content c1).length - k2) (by omega) _ _ g1 g2 true true hQ (by rw [s1, s2, hc])
           (by rw [s1]; exact hG.drop _ _ hg) (by omega) (by omega) (by omega)
 
-theorem loop_split (hloc : ParseLocal) {G : Bytes → Prop} (hG : Good G) : ∀ (n : Nat) (c1 c2 : Ctx) (y : Bytes) (f1 f2 : Nat) (r1 r2 : Bool),
-    Q c1 c2 → content c2 = content c1 ++ y → G (content c2) → (content c1).length ≤ n →
+theorem loop_split {M G G1 : Bytes → Prop} (hloc : ParseLocalOn M) (hG : Good M G G1) : ∀ (n : Nat) (c1 c2 : Ctx) (y : Bytes) (f1 f2 : Nat) (r1 r2 : Bool),
+    Q c1 c2 → content c2 = content c1 ++ y → G (content c2) → G1 (content c1) → (content c1).length ≤ n →
     (content c1).length < f1 → (content c1).length + y.length < f2 →
     c1.position + y.length + 1 ≤ c1.bufLen →
     ∀ (r0 r3 : Bool) (g : Nat), (inputLoop f1 c1 0 r1).1.position + y.length < g →
@@ -358,7 +358,7 @@ theorem loop_split (hloc : ParseLocal) {G : Bytes → Prop} (hG : Good G) : ∀ 
   intro n
   induction n using Nat.strongRecOn with
   | _ n ih =>
-    intro c1 c2 y f1 f2 r1 r2 hq hc hg hn hf1 hf2 hfit r0 r3 g
+    intro c1 c2 y f1 f2 r1 r2 hq hc hg hg1 hn hf1 hf2 hfit r0 r3 g
     have hp1 := wf_pos_le hq.wf1
     have hp2 := wf_pos_le hq.wf2
     have hl1 := content_length c1 hp1
@@ -387,7 +387,7 @@ theorem loop_split (hloc : ParseLocal) {G : Bytes → Prop} (hG : Good G) : ∀ 
       rw [h1] at e1
       dsimp only
       have hsc : scan (content c1) = some k := by rw [← e1]; rfl
-      have hsc2 : scan (content c2) = some k := by rw [hc]; exact hG.stable _ _ _ (by rw [← hc]; exact hg) hsc
+      have hsc2 : scan (content c2) = some k := by rw [hc]; exact hG.stable _ _ _ (by rw [← hc]; exact hg) hg1 hsc
       have e2 := scan_of_scanFrom f2 (content c2) (by omega)
       rw [inputLoop_scan f2 c2 0 r2 hp2]
       cases h2 : scanFrom f2 (content c2) 0 with
@@ -407,14 +407,13 @@ theorem loop_split (hloc : ParseLocal) {G : Bytes → Prop} (hG : Good G) : ∀ 
         have hpre : (content c2).take k2 = (content c1).take k2 := by
           rw [hc, List.take_append_of_le_length a2]
         have hQ := step_Q hloc hq k2 hk1 hk2 (by rw [← hm1, ← hm2, hpre])
-          (by rw [← hm1, ← hpre]; exact hG.term _ _ hg hsc2)
-          (by rw [← hm1, ← hpre]; intro b hb; exact hG.clean _ hg b (List.mem_of_mem_take hb))
+          (by rw [← hm1, ← hpre]; exact hG.msg _ _ hg hsc2)
         obtain ⟨_, s1, s1p, s1b⟩ := step_content c1 k2 hq.wf1 hk1
         obtain ⟨_, s2, _, _⟩ := step_content c2 k2 hq.wf2 hk2
         have hlen : (content (step c1 k2)).length = (content c1).length - k2 := by rw [s1, List.length_drop]
         have hc' : content (step c2 k2) = content (step c1 k2) ++ y := by
           rw [s1, s2, hc, List.drop_append_of_le_length a2]
         exact ih ((content c1).length - k2) (by omega) _ _ y g1 g2 true true hQ hc'
-          (by rw [s2]; exact hG.drop _ _ hg) (by omega) (by omega) (by omega) (by rw [s1p, s1b]; omega) r0 r3 g
+          (by rw [s2]; exact hG.drop _ _ hg) (by rw [s1]; exact hG.drop1 _ _ hg1) (by omega) (by omega) (by omega) (by rw [s1p, s1b]; omega) r0 r3 g
 
 end ScpiVerif.Lemmas.Chunking
